@@ -90,10 +90,10 @@ def observe(c, cfg: dict) -> dict:
     return o
 
 
-def replay_ops(cfg: dict, ops: list[dict], gap: float = 0.0, reuse=None, second=None) -> dict:
+def replay_ops(cfg: dict, ops: list[dict], gap: float = 0.0, reuse=None, second=None, keep_dir: str | None = None) -> dict:
     """Run ops on a real cache; return the trace record.  second: another HANDLE of the same shared cache (a pickled copy,
     as a worker process holds one): every other operation goes through it, everything is observed through the first."""
-    tmpdir = tempfile.mkdtemp(prefix="pfverif_dc_") if cfg["kind"] == "disk" else None
+    tmpdir = keep_dir or (tempfile.mkdtemp(prefix="pfverif_dc_") if cfg["kind"] == "disk" else None)
     ev = []
     try:
         c = reuse if reuse is not None else make_cache(cfg, tmpdir)
@@ -121,6 +121,15 @@ def replay_ops(cfg: dict, ops: list[dict], gap: float = 0.0, reuse=None, second=
                     r = 1 if o["k"] in c else 0
                 elif o["op"] == "len":
                     r = len(c)
+                elif o["op"] == "reopen" and cfg.get("xproc") and tmpdir:
+                    # the directory is reopened by ANOTHER interpreter (other hash seed); it runs the rest of the history
+                    cur = dict(cur, max=o["max"], lsize=o["lsize"])
+                    e["res"] = 0
+                    tail = _in_other_interpreter(cur, ops[t_ + 1:], tmpdir, gap)
+                    e.update(tail.pop(0))
+                    ev.append(e)
+                    ev += tail
+                    break
                 elif o["op"] == "reopen":
                     cur = dict(cur, max=o["max"], lsize=o["lsize"])
                     c = make_cache(cur, tmpdir)
@@ -137,10 +146,28 @@ def replay_ops(cfg: dict, ops: list[dict], gap: float = 0.0, reuse=None, second=
                 break  # the object's state is undefined after an unexpected raise
             ev.append(e)
     finally:
-        if tmpdir:
+        if tmpdir and not keep_dir:
             shutil.rmtree(tmpdir, ignore_errors=True)
     return {"kind": cfg["kind"], "max": cfg["max"], "lsize": cfg["lsize"], "aw": cfg["aw"], "dw": cfg["dw"],
             "keys": cfg["keys"], "shared": cfg.get("shared", False), "ev": ev, "ops": ops}
+
+
+def _in_other_interpreter(cfg: dict, ops: list[dict], tmpdir: str, gap: float) -> list[dict]:
+    """Observation right after reopening + the events of `ops`, all produced by a new interpreter with another hash seed."""
+    import subprocess
+    import sys
+    from .. import bootstrap
+    code = ("import json,sys\nfrom pfverif import bootstrap\nfrom pfverif.props import c14\n"
+            f"cfg=json.loads({json.dumps(json.dumps(cfg))}); ops=json.loads({json.dumps(json.dumps(ops))})\n"
+            f"c=c14.make_cache(cfg, {tmpdir!r})\nout=[c14.observe(c, cfg)]\n"
+            f"out+=c14.replay_ops(cfg, ops, gap={gap!r}, reuse=c, keep_dir={tmpdir!r})['ev']\nprint('@@'+json.dumps(out))\n")
+    env = bootstrap.child_env()
+    env["PYTHONHASHSEED"] = "4711"
+    p = subprocess.run([sys.executable, "-c", code], env=env, capture_output=True, text=True, timeout=300)
+    line = next((ln for ln in p.stdout.splitlines() if ln.startswith("@@")), None)
+    if line is None:
+        raise MachineryError("other interpreter failed: " + (p.stderr or p.stdout)[-300:])
+    return json.loads(line[2:])
 
 
 _G: dict = {}
@@ -373,6 +400,9 @@ def run(ctx: Ctx) -> None:
                         if kind == "disk":
                             ops.append({"op": "reopen", "max": m, "lsize": ls})
                             ops += [{"op": "get", "k": k} for k in keys]
+                            if again == "new" and which == 0:      # the directory reopened by ANOTHER interpreter
+                                jobs.append((dict(cfg, xproc=True), ops + [{"op": "put", "k": keys[0], "v": 77, "d": 1},
+                                                                           {"op": "len"}]))
                         jobs.append((cfg, ops))
     rtraces = run_many(jobs, gap)
     validate(ctx, rtraces, "random")
